@@ -609,7 +609,8 @@ def check_dtype_or_none(obj, domain=None):
         domain = makeDomain(domain)
         if isinstance(domain, MultiDomain) and isinstance(obj, dict):
             for kk in domain.keys():
-                check_dtype_or_none(obj[kk])
+                # a key without an entry has no sampling dtype
+                check_dtype_or_none(obj.get(kk))
             return
     check = obj in [np.float32, np.float64, float,
                     np.complex64, np.complex128, complex,
